@@ -26,7 +26,7 @@ TRUSTED_EXTRA = ["jax.jvp / jax.vjp / jax.linearize / jax.grad themselves (their
 
 SKIP_ARGS = {"order", "num_circle_points", "dealiasing_fraction", "injection_mode", "maximum_absolute", "circle_radius",
              "num_spatial_dims", "num_points", "domain_extent", "dt"}
-NS = {1: 12, 2: 6, 3: 4}
+NS = {1: 12, 2: 6, 3: 6}
 # classes whose coefficients may be a scalar OR a per-axis array / matrix: the witness differentiates w.r.t. the scalar form
 # (a traced 0-d value; rejected before the F8 repair by an isinstance(x, float) guard), the symbol correspondence uses the array forms.
 SCALAR_OR_ARRAY = [("Advection", "velocity"), ("Diffusion", "diffusivity"), ("AdvectionDiffusion", "velocity"),
